@@ -61,6 +61,20 @@ Proof.
   - inversion H; subst. clear H. destruct (has_cls xn); [|discriminate]. apply (Hk _ _ _ H1).
 Qed.
 
+Lemma first_nonmatch_frame rec kind_of l top r :
+  Forall (frame_ok rec) l -> first_nonmatch rec kind_of l top = Some r ->
+  forall v top', r = BOk (v, top') -> same_frame top top'.
+Proof.
+  induction l as [|k l IH]; intros HF H v top' Er; cbn [first_nonmatch] in H; [discriminate|].
+  inversion HF as [|? ? Hk HF']; subst.
+  destruct k as [n p len s|xn kids].
+  - apply (IH HF' H _ _ eq_refl).
+  - destruct (kind_of xn) as [[|]|].
+    + injection H as H1. apply (Hk _ _ _ H1).
+    + apply (IH HF' H _ _ eq_refl).
+    + discriminate H.
+Qed.
+
 Section Frame.
 Variable g : grammar.
 Variable mm : list ninfo.
@@ -100,9 +114,11 @@ Proof.
         destruct kids as [|k rest]; [discriminate|].
         destruct rest as [|k2 rest].
         -- inversion IH as [|? ? Hk _]; subst. apply (Hk _ _ _ H).
-        -- destruct (first_nt pn (has_class mm) (k :: k2 :: rest) top) as [r|] eqn:E.
-           ++ apply (first_nt_frame _ _ _ _ _ IH E _ _ H).
-           ++ inversion H; subst. apply same_frame_refl.
+        -- destruct (first_nonmatch pn (nonmatch_class mm) (k :: k2 :: rest) top) as [r0|] eqn:E0.
+           ++ apply (first_nonmatch_frame _ _ _ _ _ IH E0 _ _ H).
+           ++ destruct (first_nt pn (has_class mm) (k :: k2 :: rest) top) as [r|] eqn:E.
+              ** apply (first_nt_frame _ _ _ _ _ IH E _ _ H).
+              ** inversion H; subst. apply same_frame_refl.
       * (* match *)
         destruct (pmatch g input (NT n kids)); inversion H; subst. apply same_frame_refl.
 Qed.
